@@ -5,7 +5,11 @@
    [scan_html] is the minimal HTML reader (start tags with their RAW attribute values, end tags, text, script text);
    [post_page k action message relay] is the page the property asks for: one form with that action, one hidden field
    SAMLRequest/SAMLResponse, a hidden field RelayState iff [relay] is given, the submit button, the fixed script(s);
-   [template_literals] are the literal segments of the generated template; [fills] the escaped values put between them. *)
+   [template_literals] are the literal segments of the generated template; [fills] the escaped values put between them.
+   Source tie (last section): [G_f] (GenPost.v) is the body of the Go function f translated statement by statement on this
+   run; [write] is etree's Document.WriteToBytes (any function: an oracle); [build_post_body_from k cfg relay w] is
+   [build_post_body] on the written bytes, a writer error being returned unchanged. *)
+From V Require Import Time Xml GenPrelude GenPreludePost GenPost P_GenPost.
 From V Require Import Base Escape EscapeProofs SchemaDefs ConcDefs Generated PostForm P_PostForm.
 Local Open Scope list_scope.
 Local Open Scope string_scope.
@@ -87,3 +91,38 @@ Theorem C16_base64_only_plus_rewritten : forall d,
   /\ html_unescape (html_attr_escape (base64_encode d)) = base64_encode d.
 Proof. exact base64_only_plus_rewritten. Qed.
 Print Assumptions C16_base64_only_plus_rewritten.
+
+(* ---- the model is the source: the bodies of the form builders, translated from /repo on this run (which template goes with an
+   empty relay state, which configuration field is the action, what each template field holds, every error return), equal the
+   model the theorems above are about, for every configuration, relay state, document and behaviour of etree's writer; PVal also
+   says: no panic (template.Must succeeds on the six literals; no nil template or document is dereferenced). *)
+Theorem C16_source_buildAuthBodyPostFromDocument_is_the_model : forall (write : node -> res string) cfg relay doc,
+  G_buildAuthBodyPostFromDocument write cfg relay doc = PVal (build_post_body_from PAuthn cfg relay (write doc)).
+Proof. exact G_buildAuthBodyPostFromDocument_is_model. Qed.
+Print Assumptions C16_source_buildAuthBodyPostFromDocument_is_the_model.
+
+Theorem C16_source_buildLogoutBodyPostFromDocument_is_the_model : forall (write : node -> res string) cfg relay doc,
+  G_buildLogoutBodyPostFromDocument write cfg relay doc = PVal (build_post_body_from PLogoutRequest cfg relay (write doc)).
+Proof. exact G_buildLogoutBodyPostFromDocument_is_model. Qed.
+Print Assumptions C16_source_buildLogoutBodyPostFromDocument_is_the_model.
+
+Theorem C16_source_buildLogoutResponseBodyPostFromDocument_is_the_model : forall (write : node -> res string) cfg relay doc,
+  G_buildLogoutResponseBodyPostFromDocument write cfg relay doc = PVal (build_post_body_from PLogoutResponse cfg relay (write doc)).
+Proof. exact G_buildLogoutResponseBodyPostFromDocument_is_model. Qed.
+Print Assumptions C16_source_buildLogoutResponseBodyPostFromDocument_is_the_model.
+
+(* the exported entry points Build{Auth,Logout,LogoutResponse}BodyPostFromDocument *)
+Theorem C16_source_exported_wrappers_are_the_model : forall (write : node -> res string) cfg relay doc,
+  G_BuildAuthBodyPostFromDocument write cfg relay doc = PVal (build_post_body_from PAuthn cfg relay (write doc)) /\
+  G_BuildLogoutBodyPostFromDocument write cfg relay doc = PVal (build_post_body_from PLogoutRequest cfg relay (write doc)) /\
+  G_BuildLogoutResponseBodyPostFromDocument write cfg relay doc = PVal (build_post_body_from PLogoutResponse cfg relay (write doc)).
+Proof. exact exported_wrappers_are_model. Qed.
+Print Assumptions C16_source_exported_wrappers_are_the_model.
+
+(* BuildAuthBodyPost: the document is the result of BuildAuthRequestDocument when sp.SignAuthnRequests is set and of
+   BuildAuthRequestDocumentNoSig otherwise (each a document or an error: [res_some]); a builder error is returned as it is. *)
+Theorem C16_source_BuildAuthBodyPost_is_the_model : forall (write : node -> res string) cfg relay sign_requests (signed unsigned : res node),
+  G_BuildAuthBodyPost write cfg relay sign_requests (res_some signed) (res_some unsigned)
+  = PVal (build_auth_body_post write cfg relay sign_requests signed unsigned).
+Proof. exact G_BuildAuthBodyPost_is_model. Qed.
+Print Assumptions C16_source_BuildAuthBodyPost_is_the_model.
